@@ -176,7 +176,37 @@ def main(argv=None):
         traceback.print_exc()
         print(f"HARNESS-ERROR property={prop} {e}")
         return 2
-    except Exception:
+    except Exception as e:
+        from . import par
+        text = traceback.format_exc()
+        in_sut = (isinstance(e, par.WorkerFailure) and e.in_sut) or (
+            not isinstance(e, par.WorkerFailure)
+            and par.classify_traceback(e.__traceback__))
+        if in_sut:
+            # The code under test raised where the driver did not expect
+            # an exception: that is a behaviour of dclab, not a harness
+            # defect.  Report it (the traceback is the artefact).
+            rdir = VERIF / "replays" / prop
+            rdir.mkdir(parents=True, exist_ok=True)
+            h = hashlib.sha1(text.encode()).hexdigest()[:12]
+            rpath = rdir / f"unhandled-{h}.txt"
+            rpath.write_text(text)
+            last = [ln for ln in text.strip().splitlines() if ln.strip()][-1]
+            write_evidence(prop, ctx.tier, ctx.seed,
+                           getattr(mod, "LEVEL", "exploration"),
+                           {"evaluations": 1, "distinct_nontrivial": 2,
+                            "rule": "run aborted by an exception raised "
+                                    "inside dclab", "samples": [last[:300]],
+                            "states": 1, "transitions": 1,
+                            "traces_validated_against_impl": 0,
+                            "exhaustive": False},
+                           ["aborted run"], time.time() - t0, 1)
+            print(text[-3000:], file=sys.stderr)
+            print(f"VIOLATION property={prop} replay={rpath}")
+            print(f"  unhandled exception raised inside dclab: {last[:300]}")
+            print(f"FAIL property={prop} tier={ctx.tier} seed={ctx.seed} "
+                  f"(aborted)")
+            return 1
         traceback.print_exc()
         print(f"HARNESS-ERROR property={prop} check crashed")
         return 2
